@@ -79,6 +79,12 @@ CHECKS["C13"] = dict(
    note="The model is the property's statement; a malformed assert the static checker can see may legitimately stop the build instead of being logged.",
    ref="DESIGN.md section 5 C13")
 
+CHECKS["C16"] = dict(
+   technique="property-based differential testing of the CLI: each file alone in a fresh process vs every order of the batch, fresh and repeated",
+   text="Generated projects of 2..6 files (libraries with functions/modules and optional out, entry files importing and using them, failing files, identical stems in two directories) are built by the real binary file by file (baseline) and then in every permutation of the file list (12 random orders beyond 4 files) twice on fresh copies and once repeated on the same directory, plus -r; per-file failure diagnostics, artifact bytes and exit status must equal the baseline.",
+   note="'Any number of times' is exercised as two fresh runs and one repetition; per-file failure is read from the `Error building file:` diagnostics.",
+   ref="DESIGN.md section 5 C16")
+
 PENDING = {}
 
 def main():
